@@ -34,6 +34,13 @@ def mroOf : String â†’ Exc
   | "UnicodeDecodeError" => ["UnicodeDecodeError", "UnicodeError", "ValueError", "Exception", "BaseException"]
   | "OSError" => ["OSError", "Exception", "BaseException"]
   | "FileNotFoundError" => ["FileNotFoundError", "OSError", "Exception", "BaseException"]
+  | "PermissionError" => ["PermissionError", "OSError", "Exception", "BaseException"]
+  | "IsADirectoryError" => ["IsADirectoryError", "OSError", "Exception", "BaseException"]
+  | "NotADirectoryError" => ["NotADirectoryError", "OSError", "Exception", "BaseException"]
+  | "FileExistsError" => ["FileExistsError", "OSError", "Exception", "BaseException"]
+  | "InterruptedError" => ["InterruptedError", "OSError", "Exception", "BaseException"]
+  | "BlockingIOError" => ["BlockingIOError", "OSError", "Exception", "BaseException"]
+  | "TimeoutError" => ["TimeoutError", "OSError", "Exception", "BaseException"]
   | "KeyboardInterrupt" => ["KeyboardInterrupt", "BaseException"]
   | "Exception" => ["Exception", "BaseException"]
   | c => [c, "BaseException"]
@@ -101,6 +108,17 @@ def loadBytecode {Ck Code : Type} [DecidableEq Ck] (cfg : LoadCfg) (pl : Bytes â
 /-- `Bucket.write_bytecode` (bccache.py:82-88): the three parts in order -/
 def writeBytecode {Ck Code : Type} (magic : Bytes) (encCk : Ck â†’ Bytes) (encCode : Code â†’ Bytes) (ck : Ck) (code : Code) : Bytes :=
   magic ++ (encCk ck ++ encCode code)
+
+/-- the `OSError` classes the operating system hands out for a file operation (what the fault runs inject) -/
+def osErrorClasses : List String :=
+  ["OSError", "FileNotFoundError", "PermissionError", "IsADirectoryError", "NotADirectoryError", "FileExistsError",
+   "InterruptedError", "BlockingIOError", "TimeoutError"]
+
+/-! ## FileSystemBytecodeCache.load_bytecode (bccache.py:260-273): `open` under a handler that returns -/
+
+/-- `open(filename, "rb")` fails with `e`: a miss if the handler's classes catch it, else it leaves `get_template` -/
+def fsOpenFails {Code : Type} (openCaught : List String) (e : Exc) : Res Code :=
+  if catches openCaught e then .miss else .raises e
 
 /-! ## MemcachedBytecodeCache.load_bytecode (bccache.py:384-391) -/
 
